@@ -9,7 +9,7 @@ import z3
 from .base import *
 
 FILES = ["kafe2/core/confidence.py"]
-SCHEMA = {"ConfidenceLevel": {"_ndim": INT, "_cl": OPTNUM, "_sigma": OPTNUM}}
+SCHEMA = {"ConfidenceLevel": {"_ndim": INT, "_cl": OPTNUM, "_sigma": OPTNUM, "_given": PYOBJ}}          # _given: "cl" | "sigma" - which of the two was specified last (the other one is derived)
 META = {
     "level": "proof",
     "trusted_base": [
@@ -116,6 +116,7 @@ def setter_contracts(eng):
             f, o = vw.f(vw.post, vw.self, fld), vw.f(vw.post, vw.self, other)
             return [z3.Not(f.none), f.e == x, o.none]
         c.ensures.append(ens)
+        c.result = lambda vw: (vw.eng.write_field(vw.post, vw.self, "_given", VStr(name)), VNone())[1]          # (proved for the real setters in u_setters)
         return c
     mkset("cl", "new_cl", lambda x: z3.Or(x <= 0, x >= 1), "_cl", "_sigma")
     mkset("sigma", "new_sigma", lambda x: x <= 0, "_sigma", "_cl")
@@ -180,14 +181,18 @@ def u_setters(root):
         if vw.flow == "raise":
             return [("raises only for cl outside (0,1)", z3.Or(x <= 0, x >= 1)), ("rejected call changes nothing", same(vw))]
         _, c, s = fields(vw, vw.post)
-        return [("accepted => 0 < cl < 1", z3.And(x > 0, x < 1)), ("_cl = new", z3.And(z3.Not(c.none), c.e == x)), ("stale sigma cache dropped", s.none), ("invariant", InvCL(vw, vw.post))]
+        g_ = vw.f(vw.post, vw.self, "_given")
+        return [("accepted => 0 < cl < 1", z3.And(x > 0, x < 1)), ("_cl = new", z3.And(z3.Not(c.none), c.e == x)), ("stale sigma cache dropped", s.none), ("invariant", InvCL(vw, vw.post)),
+                ("the object records that the confidence level is the specified quantity", z3.BoolVal(isinstance(g_, VStr) and g_.s == "cl"))]
     body(eng, "cl", "setter", n_ok, [post_cl_setter], arg_real("new_cl"))
     def post_sigma_setter(vw):
         x = vw.args["new_sigma"].e
         if vw.flow == "raise":
             return [("raises only for sigma <= 0", x <= 0), ("rejected call changes nothing", same(vw))]
         n, c, s = fields(vw, vw.post)
-        return [("accepted => sigma > 0", x > 0), ("_sigma = new", z3.And(z3.Not(s.none), s.e == x)), ("stale cl cache dropped", c.none), ("invariant", InvCL(vw, vw.post))]
+        g_ = vw.f(vw.post, vw.self, "_given")
+        return [("accepted => sigma > 0", x > 0), ("_sigma = new", z3.And(z3.Not(s.none), s.e == x)), ("stale cl cache dropped", c.none), ("invariant", InvCL(vw, vw.post)),
+                ("the object records that sigma is the specified quantity", z3.BoolVal(isinstance(g_, VStr) and g_.s == "sigma"))]
     body(eng, "sigma", "setter", n_ok, [post_sigma_setter], arg_real("new_sigma"))
     # delta_nll setter goes through the sigma setter (by contract)
     setter_contracts(eng)
@@ -203,13 +208,17 @@ def u_setters(root):
 
 def u_ndim_setter(root):
     eng = mk_engine(root)
-    def post(vw):
-        x = vw.args["new_ndim"]
-        if vw.flow == "raise":
-            return [("raises only for non-int or non-positive", z3.BoolVal(True) if not x.is_int else x.e <= 0)]
-        return [("accepted => int >= 1", x.e >= 1), ("_ndim = new", vw.f(vw.post, vw.self, "_ndim").e == x.e),
-                ("KF-C16-ndim: invariant (cl and sigma caches still correspond) after changing the dimension", InvCL(vw, vw.post))]
-    body(eng, "ndim", "setter", [lambda vw: InvCL(vw, vw.pre)], [post], lambda e, st, me_: {"new_ndim": VNum(z3.Int("new_ndim"))}, tag="(int)")
+    for given, fld in (("cl", "_cl"), ("sigma", "_sigma")):
+        def post(vw, given=given, fld=fld):
+            x = vw.args["new_ndim"]
+            if vw.flow == "raise":
+                return [("raises only for non-int or non-positive", z3.BoolVal(True) if not x.is_int else x.e <= 0)]
+            f0, f1 = vw.f(vw.pre, vw.self, fld), vw.f(vw.post, vw.self, fld)
+            return [("accepted => int >= 1", x.e >= 1), ("_ndim = new", vw.f(vw.post, vw.self, "_ndim").e == x.e),
+                    ("the specified quantity is kept", z3.And(z3.Not(f1.none), f1.e == f0.e)),
+                    ("invariant after changing the dimension: a cached conversion for the OLD dimension does not survive (cl and sigma still correspond, for the new n)", InvCL(vw, vw.post))]
+        body(eng, "ndim", "setter", [lambda vw: InvCL(vw, vw.pre), lambda vw, fld=fld: z3.Not(vw.f(vw.pre, vw.self, fld).none)], [post],
+             lambda e, st, me_, given=given: (e.write_field(st, me_, "_given", VStr(given)), {"new_ndim": VNum(z3.Int("new_ndim"))})[1], tag=f"(int, {given} specified)")
     body(eng, "ndim", "setter", [], [lambda vw: [("non-int dimension is rejected", z3.BoolVal(vw.flow == "raise"))]], lambda e, st, me_: {"new_ndim": VNum(z3.Real("new_ndim_real"))}, tag="(non-int)")
     return eng
 
